@@ -13,6 +13,17 @@ MC_CFGS = {
     "thorough": [("MC_raft_quick.cfg", 600, 8), ("MC_raft_core3.cfg", 3000, 14)],
 }
 
+# thorough tier: further exhaustive configurations, chosen per property (measured on 4-6 workers of a
+# loaded machine: read 962k states / 4 min, prevote+checkquorum 1.39M / 4 min, dup 64k / 17 s, snap 142k / 1 min)
+MC_EXTRA = {
+    "C02": [("MC_raft_dup.cfg", 1200, 12), ("MC_raft_snap.cfg", 1800, 12)],
+    "C03": [("MC_raft_prevote.cfg", 1800, 12)],
+    "C06": [("MC_raft_read.cfg", 1800, 12)],
+    "C07": [],
+    "C17": [],
+    "C18": [("MC_raft_prevote.cfg", 1800, 12)],
+}
+
 TIERS = {
     # batches per combo, traces per batch, steps per trace
     "quick": (2, 60, 300),
@@ -65,7 +76,7 @@ def check(prop, tier, replay_path):
         if not replay_path:
             from common import run_tlc, SPEC
             import os as _os
-            for cfgname, timeout, workers in MC_CFGS[tier]:
+            for cfgname, timeout, workers in MC_CFGS[tier] + (MC_EXTRA.get(prop, []) if tier == "thorough" else []):
                 res = run_tlc(scr, "MCRaft", _os.path.join(SPEC, cfgname), workers=workers, timeout=timeout,
                               tag="mc." + cfgname, jvm=["-Xmx14g"])
                 if res.error == "timeout":
